@@ -2,6 +2,7 @@
 //!   replay-* : spec -> impl (TLC-generated cases/behaviours are stepped through the real code)
 //!   record-* : impl -> spec (the real code is driven; every call is logged as one ndjson event)
 mod record_bdd;
+mod record_env;
 mod replay_bdd;
 mod util;
 
@@ -22,6 +23,18 @@ fn main() {
         "record-bdd" => {
             drop(out);
             record_bdd::run(&args[2..])
+        }
+        "record-env" => {
+            drop(out);
+            record_env::record(&args[2..])
+        }
+        "replay-env" => {
+            drop(out);
+            record_env::replay(&args[2..])
+        }
+        "exec-env" => {
+            drop(out);
+            record_env::exec(&args[2..])
         }
         "exec-bdd" => {
             drop(out);
